@@ -389,6 +389,19 @@ def run(ctx, rep, tier="quick"):
                     f"{n} use(s)", f"`{tgt}` is a mode sign but is not used as a factor of a metric-valued expression (it is not a factor at all, or the other "
                     f"factor can be a fixed sentinel such as inf / a dict.get default, which does not flip with the metrics): " +
                     ", ".join(f"{g.short}:{x.lineno}" for g, x in bad[:3]))
+    # PASHA: the consumer sorts the (trial, rank, value) tuples with reverse=(mode == 'max'); that is symmetric only if the
+    # producer's ranks are mode-dependent themselves (ascending-value ranks: range(n) for min, reversed for max).  Ranks that
+    # are plain best-first positions are the same under both modes and must not be reversed for one of them.
+    shapes_by_func = {}
+    for f_, node_ in sites(ctx, FILES):
+        if f_.cls is not None and f_.cls.name == "PASHARungSystem":
+            shapes_by_func.setdefault(f_.name, []).append(classify(ctx, f_, node_)[0])
+    cons = "reverse-flag" in shapes_by_func.get("_get_sorted_top_rungs", []) or "reverse-kw" in shapes_by_func.get("_get_sorted_top_rungs", [])
+    prod = "range-reversal" in shapes_by_func.get("_get_top_two_rungs_rankings", [])
+    rep.put(cons == prod, "S1", "parity", "PASHARungSystem: ranks are mode-dependent exactly if the ranking sort is reversed for 'max'",
+            ctx.P.method("PASHARungSystem", "_get_sorted_top_rungs"), None, f"producer mode-dependent: {prod}, consumer reversed for max: {cons}",
+            f"producer mode-dependent: {prod}, consumer reversed for max: {cons} - the (trial, rank, value) lists come out best-first for one mode "
+            "and worst-first for the other: PASHA's stability test sees different rankings and grows its resource cap differently")
     # the statistics the two modes read (running minimum / maximum per metric) are maintained as a dual pair
     ms = ctx.P.method("MetricsStatistics", "add")
     upd = {}
